@@ -410,9 +410,9 @@ theorem fixupsOf_good (env : Env) (fa : Nat) (call : Copier) (hcall : GoodCopier
     · have := a2 a ha; omega
 
 theorem ptrBodyOf_good (env : Env) (fa : Nat) (call : Copier) (hcall : GoodCopier call) (rec : TE → Code)
-    (hrec : RecGood env fa call rec) (e : TE) (a : Nat) (d : Val) (n : Nat)
-    (hok : (ptrBodyOf env fa rec e).ok = true) (ht : HasTy env fa d e) :
-    Good (.ptr a d) n (exec call (ptrBodyOf env fa rec e) (.ptr a d) n) := by
+    (hrec : RecGood env fa call rec) (dp : Bool) (e : TE) (a : Nat) (d : Val) (n : Nat)
+    (hok : (ptrBodyOf env fa rec dp e).ok = true) (ht : HasTy env fa d e) :
+    Good (.ptr a d) n (exec call (ptrBodyOf env fa rec dp e) (.ptr a d) n) := by
   unfold ptrBodyOf at hok ⊢
   by_cases hc : hasCustom env e = true
   · simp only [hc, ↓reduceIte]
@@ -495,7 +495,7 @@ theorem genFor_good (env : Env) (fa : Nat) (call : Copier) (hcall : GoodCopier c
       simp only [hv] at hok ⊢
       cases v <;> simp only [HasTy, hv] at ht
       · exact absurd rfl hne
-      · exact ptrBodyOf_good env fa call hcall _ ih e _ _ n hok ht
+      · exact ptrBodyOf_good env fa call hcall _ ih _ e _ _ n hok ht
     | _ => simp [hv, Code.ok] at hok
 
 /-! ## the generated methods -/
@@ -576,13 +576,13 @@ theorem handwritten_called (env : Env) (fa : Nat) (call : Copier) (rec : TE → 
         (.slice n (mapVals call vs (n + 1)).1, (mapVals call vs (n + 1)).2)) ∧
     (∀ m : Field, m.t = e → exec call (fixOf env fa rec m) = call) ∧
     (∀ f, exec call (arrayElemOf env fa rec (f + 1) e) = call) ∧
-    (∀ a d n, exec call (ptrBodyOf env fa rec e) (.ptr a d) n = (.ptr n (call d (n + 1)).1, (call d (n + 1)).2)) := by
+    (∀ dp a d n, exec call (ptrBodyOf env fa rec dp e) (.ptr a d) n = (.ptr n (call d (n + 1)).1, (call d (n + 1)).2)) := by
   refine ⟨?_, ?_, ?_, ?_, ?_⟩
   · unfold mapValOf; simp only [hc, ↓reduceIte]; split <;> rfl
   · intro t a vs n; unfold sliceBodyOf; simp only [hc, ↓reduceIte, exec]
   · intro m hm; subst hm; unfold fixOf; simp only [hc, ↓reduceIte]; split <;> rfl
   · intro f; unfold arrayElemOf; simp only [hc, ↓reduceIte]; rfl
-  · intro a d n; unfold ptrBodyOf; simp only [hc, ↓reduceIte]; split <;> simp only [exec]
+  · intro dp a d n; unfold ptrBodyOf; simp only [hc, ↓reduceIte]; split <;> simp only [exec]
 
 /-! ## tags select exactly the tagged types -/
 
